@@ -155,6 +155,7 @@ func verifRelease(m *Message) bool {
 	t.inTracker = true
 	m.Reset()
 	m.ctx = nil
+	verifPoison(m)
 	t.inTracker = false
 	t.Released++
 	return true
